@@ -863,6 +863,11 @@ def adapt_typehints(
                 val[n] = adapt_typehints(v, subtypehint, **adapt_kwargs)
         if not serialize:
             val = tuple(val) if typehint_origin in {Tuple, tuple} else set(val)
+        elif typehint_origin not in {Tuple, tuple}:
+            try:
+                val = sorted(val)
+            except TypeError:
+                val = sorted(val, key=str)
 
     # List, Iterable or Sequence
     elif typehint_origin in sequence_origin_types:
